@@ -164,6 +164,27 @@ class Sim:
             skw["quic_logger"] = self.s_qlog
         self.ccfg = E.client_config(**ckw)
         self.scfg = E.server_config(cfg.get("leaf", "ed25519"), **skw)
+        self.ticket_store = None
+        if cfg.get("resume"):
+            # an earlier (lossless, unobserved) connection of the same client to the same server leaves a session ticket: the connection under test is
+            # a resumption, and what the client writes before the handshake completes travels as 0-RTT data
+            store, got = {}, []
+            quiet = lambda kw: {k: v for k, v in kw.items() if k not in ("secrets_log_file", "quic_logger")}
+            c0 = QuicConnection(configuration=E.client_config(**quiet(ckw)), session_ticket_handler=got.append)
+            c0.connect(SERVER_ADDR, now=0.0)
+            s0 = QuicConnection(configuration=E.server_config(cfg.get("leaf", "ed25519"), **quiet(skw)), original_destination_connection_id=c0.original_destination_connection_id, session_ticket_handler=lambda t: store.__setitem__(t.ticket, t))
+            t0 = 0.0
+            for _ in range(6):
+                t0 += 0.001
+                E.transfer(c0, s0, t0, CLIENT_ADDR)
+                t0 += 0.001
+                E.transfer(s0, c0, t0, SERVER_ADDR)
+            if got:
+                self.ccfg.session_ticket = got[0]
+                self.ticket_store = store
+                self.stats["resume:ticket"] += 1
+            else:
+                self.stats["resume:no-ticket"] += 1
         client = QuicConnection(configuration=self.ccfg)
         self.ep["c"] = Endpoint("c", client, CLIENT_ADDR)
         self.ep["s"] = Endpoint("s", None, SERVER_ADDR)
@@ -323,7 +344,8 @@ class Sim:
                 odcid, rscid = self.retry_handler.validate_token(src, header.token)
             except ValueError:
                 return False
-        ep.conn = QuicConnection(configuration=self.scfg, original_destination_connection_id=odcid, retry_source_connection_id=rscid)
+        tkw = {"session_ticket_fetcher": lambda k: self.ticket_store.pop(k, None), "session_ticket_handler": lambda t: None} if self.ticket_store is not None else {}
+        ep.conn = QuicConnection(configuration=self.scfg, original_destination_connection_id=odcid, retry_source_connection_id=rscid, **tkw)
         self.server_created = True
         for m in self.monitors:
             m.on_api(self, "s", "created", {"retry": rscid is not None, "addr": src})
